@@ -214,6 +214,8 @@ class Extractor:
         while toks[j].t in MODIFIERS or (toks[j].t == 'const' and toks[j + 1].t in ('fn', 'unsafe', 'extern')):
             j += 1
         kw = toks[j].t
+        if kw == 'extern' and toks[j + 1].t == 'crate':
+            return 'extern crate ' + toks[j + 2].t
         if kw == 'use':
             k = j + 1
             parts = []
@@ -272,7 +274,7 @@ class Extractor:
                 i = self.handle_attrs(i, hi, ctx)
                 continue
             # ---- item-level handling (only at positions where an item can start)
-            if depth == 0 and i != self._no_item_at and t.k == 'id' and (t.t in ITEM_KW or t.t in ('pub', 'unsafe', 'const', 'static', 'type', 'macro_rules', 'use') or
+            if depth == 0 and i != self._no_item_at and t.k == 'id' and (t.t in ITEM_KW or t.t in ('pub', 'unsafe', 'const', 'static', 'type', 'macro_rules', 'use', 'extern') or
                                 (i + 1 < hi and toks[i + 1].t == '!')) and self._at_item_start(i, lo):
                 nm = self.item_name(i, hi)
                 if nm is not None:
@@ -361,7 +363,8 @@ class Extractor:
 
     def will_drop(self, nm, ctx):
         full = (ctx + '::' + nm) if ctx else nm
-        if ctx is None and self.only_items is not None and nm not in self.only_items:
+        if ctx is None and self.only_items is not None and nm not in self.only_items and \
+                not any(o.endswith('*') and nm.startswith(o[:-1]) for o in self.only_items):
             return True
         return any(full == d or full.endswith('::' + d) for d in self.drop_items)
 
